@@ -209,6 +209,23 @@ def step (s : Sim) (wl : WLast) (ev ob : String) : Sim × WLast × Option String
       let want := s!"{rs}!{showSnap nd'}"
       (s', wl, if want == s!"{res}!{snap}" then none else some want)
     | _, _, _, _ => (s, wl, some "bad-cas-event")
+  | ["ci", n, key, ops], [t0, tn, res, snap, msg, _, _] =>
+    -- a CAS, and - while its broadcast is being encoded, i.e. after the store was updated and the lock released -
+    -- the merge of a one-pair full state for the same key: two merges, one after the other
+    match n.toNat?, t0.toInt?, tn.toInt?, (ops.splitOn "+").mapM parseOp with
+    | some n, some t0, some tn, some ops =>
+      let nd := s.node n
+      let v0 := verSum nd
+      let (nd1, r) := cas cfg tn (tn * 1000) nd key (applyOps t0 s.conf.clash (key.startsWith "p") ops)
+      let nd' := if msg == "-" then some nd1 else (parseMsg msg).map fun m => mergeRemoteState cfg tn nd1 [m]
+      match nd' with
+      | some nd' =>
+        let rs := match r with | .ok => "ok" | .noChange => "nochg" | .err => "err"
+        let s' := { s.setNode n nd' with changes := s.changes + (verSum nd' - v0) }
+        let want := s!"{rs}!{showSnap nd'}"
+        (s', wl, if want == s!"{res}!{snap}" then none else some want)
+      | none => (s, wl, some "bad-ci-message")
+    | _, _, _, _ => (s, wl, some "bad-ci-event")
   | ["g", n], [_, msgs, q] =>
     match n.toNat? with
     | some n =>
@@ -423,6 +440,7 @@ def snapOf (e o : List String) : Option (Nat × String) :=
   | ["pp", _, b], [_, _, _, snapB] => b.toNat?.map (·, snapB)
   | ["ppx", _, b, _, _], [_, _, _, snapB, _] => b.toNat?.map (·, snapB)
   | ["inj", n, _], [_, _, snap] => n.toNat?.map (·, snap)
+  | ["ci", n, _, _], [_, _, _, snap, _, _, _] => n.toNat?.map (·, snap)
   | ["co", n], [_, snap] => n.toNat?.map (·, snap)
   | [_, n, _], [_, snap] => n.toNat?.map (·, snap)
   | _, _ => none
@@ -456,6 +474,16 @@ def judge (conf : Conf) (evs obs : List String) : List String := Id.run do
             if !delKeys.contains k then js := { js with bad := s!"live-key-marked-deleted:{k}" :: js.bad }
     match e, o with
     | ["cas", n, key, _], [_, _, res, snap] =>
+      if res == "ok" then
+        match n.toNat?, parseSnap snap with
+        | some n, some sn =>
+          match getE sn.store key with
+          | some en => js := { js with acks := (n, key, en.val) :: js.acks }
+          | none => pure ()
+        | _, _ => js := { js with bad := "unparsable-observation" :: js.bad }
+    | ["ci", n, key, _], [_, _, res, snap, _, chg, enc] =>
+      -- what is queued for gossip is the change as it was when the store was updated, whatever is merged meanwhile
+      if chg != enc then js := { js with bad := s!"broadcast-differs-from-change:{key}" :: js.bad }
       if res == "ok" then
         match n.toNat?, parseSnap snap with
         | some n, some sn =>
@@ -537,7 +565,9 @@ def judge (conf : Conf) (evs obs : List String) : List String := Id.run do
                 let watched := if isP then k.startsWith wkey else k == wkey
                 let cur := (lookup s.view k).map showVal
                 let (regVer, regView) := (lookup vers k).getD (0, "")
-                if watched ∧ !delKeys.contains k ∧ (regVer != en.version ∨ some regView != cur) then
+                -- a key that is (still) marked deleted is exempt; one that was deleted, cleaned up and written again
+                -- is a live key like any other (its store version started again at 1)
+                if watched ∧ !en.deleted ∧ (regVer != en.version ∨ some regView != cur) then
                   let got := (js.wl.find? fun (w, k', _) => w == wid ∧ k' == k).map (·.2.2)
                   if got != cur then js := { js with bad := s!"watcher-not-called-with-final-value:{k}" :: js.bad }
     | _, _ => pure ()
@@ -551,7 +581,9 @@ def handleRun (f : List String) : String × String × String :=
   match f with
   | [cfg, evs, obs] =>
     let conf := parseConf cfg
-    let evs := evs.splitOn " "
+    -- `ppj` is a push/pull done with join = true (initial join, fast-join, periodic re-join): `LocalState` and
+    -- `MergeRemoteState` behave exactly as with join = false
+    let evs := (evs.splitOn " ").map fun e => if e.startsWith "ppj!" then "pp!" ++ (e.drop 4).toString else e
     let obs := obs.splitOn " "
     if evs.length != obs.length then ("event-observation-count", "-", "-") else
     let (s, d) := replay conf evs obs
